@@ -86,11 +86,16 @@ Proj(k) == LET s == obj[k] IN
      blk   |-> Limbs(s, w),             \* data(): unused bits of the last block are zero
      bit   |-> Limbs(s, w),             \* block_begin()..block_end(): the same blocks
      count |-> Count(s),
+     dist  |-> Len(s),                  \* end() - begin()  (a second route to size())
+     rdist |-> Len(s),                  \* rend() - rbegin()
+     itcnt |-> Count(s),                \* std::count(cbegin(), cend(), true)  (a second route to count())
      any   |-> \E i \in 1..Len(s) : s[i] = 1,
      all   |-> \A i \in 1..Len(s) : s[i] = 1,
      none  |-> \A i \in 1..Len(s) : s[i] = 0,
      guard |-> TRUE]                    \* caller memory outside a view's blocks is untouched
-ProjAll == [o |-> <<Proj(1), Proj(2)>>, eq |-> obj[1] = obj[2], ne |-> obj[1] # obj[2]]
+(* eq / ne: obj1 == obj2, obj1 != obj2; eq21: obj2 == obj1 (operands exchanged: the other template instance when one of *)
+(* them is a view); eqel: sizes equal and std::equal over the const iterators (the element-wise definition of ==)          *)
+ProjAll == [o |-> <<Proj(1), Proj(2)>>, eq |-> obj[1] = obj[2], ne |-> obj[1] # obj[2], eq21 |-> obj[2] = obj[1], eqel |-> obj[1] = obj[2]]
 
 ----------------------------------------------------------------------------
 Ok(v)  == [exc |-> "none", val |-> v]
@@ -248,6 +253,44 @@ Fill2(k, i, j, v) ==
     /\ i <= j /\ j <= Len(obj[k])
     /\ Mut("Fill", k, [i |-> i, j |-> j, v |-> v], [m \in 1..Len(obj[k]) |-> IF m > i /\ m <= j THEN v ELSE obj[k][m]], Void)
 
+
+(* Standard algorithms over the bit iterators: runs of reads and writes through the iterator proxies.  The result is   *)
+(* the algorithm's definition on the sequence, whatever order of proxy reads/writes/swaps the library uses.            *)
+(*   reverse  : std::reverse(begin()+i, begin()+j)                                                                      *)
+(*   rotate   : std::rotate(begin()+i, begin()+m, begin()+j)                                                            *)
+(*   iterswap : std::iter_swap(begin()+i, begin()+j)          (i, j < size())                                           *)
+(*   copyfrom : std::copy(other.cbegin()+i, other.cbegin()+j, begin()+m)   (const proxies read, non-const written)      *)
+(*   copybwd  : std::copy_backward(begin()+i, begin()+j, begin()+j+m)  (m <= size()-j: the segment moves up by m, overlapping) *)
+(*   count    : std::count(cbegin()+i, cbegin()+j, true)            find : std::find(begin()+i, begin()+j, true) - begin() *)
+(*   equal    : std::equal(cbegin()+i, cbegin()+j, other.cbegin()+i)                                                    *)
+AlgoMut == {"reverse", "rotate", "iterswap", "copyfrom", "copybwd"}
+AlgoObs == {"count", "find", "equal"}
+AlgoKinds == AlgoMut \cup AlgoObs
+SegRev(s, i, j)    == [x \in 1..Len(s) |-> IF x > i /\ x <= j THEN s[i + j + 1 - x] ELSE s[x]]
+SegRot(s, i, m, j) == [x \in 1..Len(s) |-> IF x > i /\ x <= j THEN s[i + 1 + (((x - 1 - i) + (m - i)) % (j - i))] ELSE s[x]]
+SwapBits(s, i, j)  == [s EXCEPT ![i + 1] = s[j + 1], ![j + 1] = s[i + 1]]
+CopyInto(s, t, i, j, m) == [x \in 1..Len(s) |-> IF x > m /\ x <= m + (j - i) THEN t[i + (x - m)] ELSE s[x]]
+RECURSIVE FindFrom(_, _, _)
+FindFrom(s, i, j) == IF i >= j THEN j ELSE IF s[i + 1] = 1 THEN i ELSE FindFrom(s, i + 1, j)
+AlgoOK(k, alg, i, m, j) == LET n == Len(obj[k])  no == Len(obj[Other(k)]) IN
+    CASE alg = "iterswap" -> i < n /\ j < n /\ m = 0
+      [] alg = "rotate"   -> i <= m /\ m <= j /\ j <= n
+      [] alg = "copyfrom" -> i <= j /\ j <= no /\ m + (j - i) <= n
+      [] alg = "copybwd"  -> i <= j /\ j + m <= n
+      [] alg = "equal"    -> i <= j /\ j <= n /\ j <= no /\ m = 0
+      [] OTHER            -> i <= j /\ j <= n /\ m = 0
+Algo(k, alg, i, m, j) == LET s == obj[k]  t == obj[Other(k)]  a == [alg |-> alg, i |-> i, m |-> m, j |-> j] IN
+    /\ alg \in AlgoKinds
+    /\ AlgoOK(k, alg, i, m, j)
+    /\ CASE alg = "reverse"  -> Mut("Algo", k, a, SegRev(s, i, j), Void)
+         [] alg = "rotate"   -> Mut("Algo", k, a, SegRot(s, i, m, j), Void)
+         [] alg = "iterswap" -> Mut("Algo", k, a, SwapBits(s, i, j), Void)
+         [] alg = "copyfrom" -> Mut("Algo", k, a, CopyInto(s, t, i, j, m), Void)
+         [] alg = "copybwd"  -> Mut("Algo", k, a, CopyInto(s, s, i, j, i + m), Void)
+         [] alg = "count"    -> Obs("Algo", k, a, Ok(<<Count(SubSeq(s, i + 1, j))>>))
+         [] alg = "find"     -> Obs("Algo", k, a, Ok(<<FindFrom(s, i, j)>>))
+         [] alg = "equal"    -> Obs("Algo", k, a, Ok(<<IF SubSeq(s, i + 1, j) = SubSeq(t, i + 1, j) THEN 1 ELSE 0>>))
+
 ----------------------------------------------------------------------------
 (* Bounded argument domains for the model checker *)
 Sizes      == 0..MaxBits
@@ -258,6 +301,7 @@ BlockSeqs(W, n) == UNION {[1..m -> BlockVals(W)] : m \in 0..n}
 MaxBlk == NBlk(MaxBits, w)
 Idx(k)     == 0..(Len(obj[k]) - 1)
 
+
 Init ==
     /\ w \in Widths
     /\ kind = <<"own", "own">>
@@ -266,6 +310,8 @@ Init ==
     /\ pre = [obj |-> <<<<>>, <<>>>>, kind |-> <<"own", "own">>]
 
 C(c) == c \in Classes
+AlgoIdx(k) == LET n == IF Len(obj[k]) >= Len(obj[Other(k)]) THEN Len(obj[k]) ELSE Len(obj[Other(k)]) IN
+              IF C("algofew") \/ C("algopair") THEN {0, 1, w - 1, w, w + 1, n - 1, n} \cap 0..n ELSE 0..n
 NextT(k) ==
     \/ C("ctor") /\ (CtorDefault(k) \/ CtorAlloc(k))
     \/ C("ctor") /\ \E n \in Sizes : CtorN(k, n)
@@ -290,6 +336,11 @@ NextT(k) ==
     \/ C("shift") /\ \E p \in 0..MaxShift : ShlEq(k, p) \/ ShrEq(k, p) \/ Shl(k, p) \/ Shr(k, p)
     \/ C("binary") /\ \E sf \in {0, 1} : AndEq(k, sf) \/ OrEq(k, sf) \/ XorEq(k, sf) \/ And(k, sf) \/ Or(k, sf) \/ Xor(k, sf)
     \/ C("fill") /\ \E i \in 0..Len(obj[k]), j \in 0..Len(obj[k]), v \in Bit : Fill2(k, i, j, v)
+    \/ (C("algo") \/ C("algofew")) /\ \E i \in AlgoIdx(k), j \in AlgoIdx(k) :
+           \/ \E alg \in AlgoKinds \ {"rotate", "copyfrom", "copybwd"} : Algo(k, alg, i, 0, j)
+           \/ i <= j /\ \E m \in AlgoIdx(k) : Algo(k, "rotate", i, m, j) \/ Algo(k, "copyfrom", i, m, j) \/ Algo(k, "copybwd", i, m, j)
+    \/ C("algopair") /\ \E i \in {0, 1, w}, j \in AlgoIdx(k) :
+           i <= j /\ (Algo(k, "equal", i, 0, j) \/ \E m \in {0, 1, w - 1, w} : Algo(k, "copyfrom", i, m, j))
     \/ C("at") /\ \E i \in 0..(NBlk(MaxBits, w) * w + 1), c \in {"c", "m"} : At(k, c, i)
     \/ C("read") /\ \E i \in Idx(k), path \in ReadPaths : Read(k, path, i)
     \/ C("write") /\ \E i \in Idx(k), path \in WritePaths, wk \in WriteKinds, v \in Bit, j \in Idx(k) :
@@ -344,6 +395,21 @@ Laws == \A k \in {1, 2} : LET s == obj[k] IN
     /\ XorSeq(s, s) = Fill(Len(s), 0) /\ AndSeq(s, s) = s /\ OrSeq(s, NotSeq(s)) = Fill(Len(s), 1)
 
 (* observers never change the abstract state; views never change size *)
+AlgoLaws == \A k \in {1, 2} : LET s == obj[k]  n == Len(s) IN
+    /\ SegRev(s, 0, n) = RevSeq(s)
+    /\ \A i \in 0..n, j \in 0..n : i <= j =>
+          /\ SegRev(SegRev(s, i, j), i, j) = s
+          /\ Count(SegRev(s, i, j)) = Count(s)
+          /\ SegRot(s, i, i, j) = s /\ SegRot(s, i, j, j) = s
+          /\ \A m \in i..j : /\ Count(SegRot(s, i, m, j)) = Count(s)
+                               /\ SegRot(SegRot(s, i, m, j), i, i + (j - m), j) = s     \* rotating back
+          /\ CopyInto(s, s, i, j, i) = s
+          /\ FindFrom(s, i, j) \in i..j
+          /\ (FindFrom(s, i, j) = j) = (Count(SubSeq(s, i + 1, j)) = 0)
+    /\ \A i \in 0..(n - 1), j \in 0..(n - 1) : SwapBits(SwapBits(s, i, j), i, j) = s /\ SwapBits(s, i, i) = s
+(* algorithms never change the size; the observers among them change nothing *)
+AlgoSizeLaw == [][last'.op = "Algo" => /\ Len(obj'[last'.k]) = Len(obj[last'.k]) /\ obj'[Other(last'.k)] = obj[Other(last'.k)]
+                                        /\ (last'.a.alg \in AlgoObs => obj' = obj)]_vars
 ObserverOps == {"At", "Read", "Not", "And", "Or", "Xor", "Shl", "Shr", "ResizeView", "Reserve", "MaxSize"}
 ObserversPure == [][last'.op \in ObserverOps => obj' = obj /\ kind' = kind]_vars
 ViewSizeFixed == [][\A k \in {1, 2} : (kind[k] = "view" /\ kind'[k] = "view" /\ last'.op \notin {"CtorView", "Swap"}) => Len(obj'[k]) = Len(obj[k])]_vars
